@@ -30,4 +30,5 @@ var verifHarnesses = map[string]func(){
 	"VerifC19LaunchMany": VerifC19LaunchMany,
 	"VerifC07DoubleVoting": VerifC07DoubleVoting,
 	"VerifC05NewValidatorHook": VerifC05NewValidatorHook,
+	"VerifC16Allocate": VerifC16Allocate,
 }
